@@ -74,8 +74,8 @@ CLAIMED = {
         "pending orders, induction over the business days): for every fixed-weight configuration (any static universe, weight vector with "
         "distinct keys, sizing mode, fee model, schedule, burn-in, dates, cash) and every market, a session that does not raise agrees with "
         "Spec.spec_run on every fill (time, asset, quantity, price, commission), on the times and values of daily equity and on final cash, "
-        "holdings and pending orders; and (backtest_matches_rules_on_quoted_markets, proofs/SpecProgress) on every market that quotes all assets of the universe and of the weight vector positively at every clock instant (weights non-negative when long-only, start not after the open of its day) the session never raises, so the agreement is unconditional there. Tied to /repo on every run: real fixed-weight sessions (both sizers, all schedules, fees, burn-in) are "
-        "compared with Spec.spec_run and with the session model.",
+        "holdings and pending orders; and (backtest_matches_rules_on_quoted_markets, proofs/SpecProgress) on every market that quotes all assets of the universe and of the weight vector positively at every clock instant (weights non-negative when long-only, start not after the open of its day) the session never raises, so the agreement is unconditional there; and (every_session_follows_the_rules_from_its_allocations, proofs/SpecRows) for EVERY alpha model, static or dynamic universe, with or without signals, the fills, equity and final state of a session that does not raise are what the rules compute from the target-allocation rows the session recorded, each consumed by exactly one scheduled rebalance, none left over. Tied to /repo on every run: real fixed-weight sessions (both sizers, all schedules, fees, burn-in) are "
+        "compared with Spec.spec_run and with the session model, and sessions with every alpha model are compared with Spec.spec_run_rows driven by the implementation's own recorded target allocations.",
    note=TRUST + "The general theorem is conditional on the session trace carrying no error (a run that raises is outside the statement); the quoted-market corollary removes that premise; rational values computed through different but equal expressions (equity, cash) are related by == on Q.",
    design="7/C08", technique="executable specification in Coq + refinement proof (simulation relation, induction over days) + implementation-vs-specification correspondence check"),
  'C14': dict(
